@@ -217,6 +217,16 @@ fn one_threshold(a: &Args, shape: u32, seed: u64, t: u64, kind: u32, ctx: &mut C
             return Err(format!("FOREIGN {ctxs} the call panicked: {m}"));
         }
     };
+    if call_ok {
+        ctx.count("call_ok", 1);
+        // Ok => durable: the snapshot taken right now opens to the model (whether or not a refusal was seen)
+        if let Err(m) = snapshot_equals_model(&dir, &snap, &b.model) {
+            hooks::record_io_events(false);
+            return Err(if m.starts_with("HARNESS") { m } else { format!("{ctxs} the call returned Ok but {m}") });
+        }
+    } else {
+        ctx.count("call_err", 1);
+    }
     if let Some(first) = refused.first() {
         ctx.count(&format!("first_refused.{}", first.file), 1);
         ctx.count("thresholds_with_refusal", 1);
@@ -226,16 +236,6 @@ fn one_threshold(a: &Args, shape: u32, seed: u64, t: u64, kind: u32, ctx: &mut C
         }
     } else {
         ctx.count("thresholds_without_refusal", 1);
-    }
-    if call_ok {
-        ctx.count("call_ok", 1);
-        // Ok => durable: the snapshot taken right now opens to the model
-        if let Err(m) = snapshot_equals_model(&dir, &snap, &b.model) {
-            hooks::record_io_events(false);
-            return Err(if m.starts_with("HARNESS") { m } else { format!("{ctxs} the call returned Ok but {m}") });
-        }
-    } else {
-        ctx.count("call_err", 1);
     }
     // ---- the condition is lifted: the in-memory view is fully correct
     for k in b.keys.iter() {
